@@ -39,7 +39,10 @@ RULE_ADDED = (
               'digits '
               ' '
               'Round 8: histories whose repairing request comes from a client that has hung up '
-              'by the time the reply is written. ')
+              'by the time the reply is written. '
+              ' '
+              'Round 9: histories whose PIN file path is a symbolic link into another directory'
+              ' (dangling when there is no PIN yet). ')
 RULE = RULE + " " + RULE_ADDED.strip()
 ASSUMPTIONS = [
     "simulated device keeps its PIN in a state file written before it acknowledges (its NVM)",
